@@ -159,6 +159,8 @@ def isinstance_one(ex, v, t):
         return isinstance(v, Record) and v.cls is not None and t.qual in ex.repo.mro(v.cls)
     if isinstance(t, LibFn):
         return False
+    if type(t).__name__ == "DType":
+        return False        # numpy scalar types: the modelled scalars are python ints / floats / bools
     raise Unsupported(f"isinstance against {t!r}")
 
 
